@@ -647,32 +647,109 @@ def rule_r3(prog, res) -> None:
     if gp is None:
         raise AnalysisError("C18.R3: DataReader.get_probe vanished")
     res.touch(gp)
-    # the pass may live in a closure / generator defined inside get_probe that is used exactly once
-    # … or in a private helper (method of the reader / function of the module) that get_probe calls
-    inner = [f for f in gp.module.all_funcs if f.parent is gp]
-    helpers = []
-    for c in calls_in(gp):
-        for t in prog.resolve_call(gp, c).funcs():
-            if t.module is gp.module and t.name.startswith("_") and not t.name.startswith("__") and t is not gp and t not in helpers and t not in inner:
-                helpers.append(t)
-    loops = [x for f in [gp, *inner, *helpers] for x in walk_no_nested(f.node) if isinstance(x, (ast.For, ast.comprehension)) and "self" in unparse(x.iter)]
-    uses = {f.name: [c for c in calls_in(gp) if isinstance(c.func, ast.Name) and c.func.id == f.name] for f in inner}
-    uses.update({f.name: [c for c in calls_in(gp) if f in prog.resolve_call(gp, c).funcs()] for f in helpers if any(isinstance(x, (ast.For, ast.comprehension)) for x in walk_no_nested(f.node))})
-    pmg = parents_map(gp.node)
-
-    def in_loop(node) -> bool:
-        cur = pmg.get(id(node))
-        while cur is not None:
-            if isinstance(cur, (ast.For, ast.While, ast.comprehension, ast.ListComp, ast.GeneratorExp)):
-                return True
-            cur = pmg.get(id(cur))
-        return False
-
-    once = all(len(u) == 1 and not in_loop(u[0]) for u in uses.values())
-    if len(loops) == 1 and once:
-        res.ok("C18.R3", res.site(gp), "probe gathered chunk-wise in one pass over iter(self)")
+    # every place where the reader itself is iterated, followed through the helpers / closures / generators that
+    # get_probe hands `self` or `iter(self)` to (any module-local function, resolved precisely)
+    sites, repeated = _reader_iteration_sites(prog, gp)
+    if len(sites) == 1 and not repeated:
+        res.ok("C18.R3", res.site(gp), f"probe gathered chunk-wise in one pass over iter(self) ({sites[0]})")
     else:
-        res.violation("C18.R3", gp, gp.node, "the sparse probe is not gathered in a single chunk-wise pass", key_extra="probe-shape")
+        res.violation("C18.R3", gp, gp.node, "the sparse probe is not gathered in a single chunk-wise pass" + (f" ({len(sites)} iteration sites: {', '.join(sites)})" if sites else ""), key_extra="probe-shape")
+
+
+ITER_CONSUMERS = {"list", "tuple", "sorted", "sum", "max", "min", "any", "all", "concatenate", "fromiter", "vstack", "hstack", "stack", "set", "frozenset", "dict", "deque", "reduce", "chain", "enumerate", "zip", "map", "filter", "islice"}
+
+
+def _reader_iteration_sites(prog, gp: FuncInfo):
+    """-> (labels of the sites that iterate the reader, True when a site / the call chain to it sits in a loop)"""
+    sites: list[str] = []
+    repeated = [False]
+    seen: set = set()
+
+    def visit(f: FuncInfo, names: set, in_loop: bool, depth: int) -> None:
+        """names: local names of f that denote the reader or an iterator over it"""
+        if depth > 6 or (f.qualname, tuple(sorted(names))) in seen:
+            return
+        seen.add((f.qualname, tuple(sorted(names))))
+        pm = parents_map(f.node)
+
+        def denotes(e) -> bool:
+            if isinstance(e, ast.Name):
+                return e.id in names
+            if isinstance(e, ast.Call) and isinstance(e.func, ast.Name) and e.func.id in ("iter", "enumerate") and len(e.args) == 1:
+                return denotes(e.args[0])
+            return False
+
+        def looped(node) -> bool:
+            cur = pm.get(id(node))
+            prev = node
+            while cur is not None and cur is not f.node:
+                if isinstance(cur, (ast.For, ast.While)) and prev is not cur.iter if isinstance(cur, ast.For) else isinstance(cur, ast.While):
+                    return True
+                if isinstance(cur, (ast.ListComp, ast.GeneratorExp, ast.SetComp, ast.DictComp)) and not any(prev is g or prev is g.iter for g in cur.generators[:1]):
+                    return True
+                if isinstance(cur, (ast.FunctionDef, ast.Lambda)):
+                    break
+                prev, cur = cur, pm.get(id(cur))
+            return False
+
+        # aliases: x = iter(self)
+        changed = True
+        while changed:
+            changed = False
+            for st in walk_no_nested(f.node):
+                if isinstance(st, ast.Assign) and len(st.targets) == 1 and isinstance(st.targets[0], ast.Name) and denotes(st.value) and st.targets[0].id not in names:
+                    names.add(st.targets[0].id)
+                    changed = True
+        inner = {g.name: g for g in f.module.all_funcs if g.parent is f}
+        for x in walk_no_nested(f.node):
+            if isinstance(x, ast.For) and denotes(x.iter):
+                sites.append(f"for-loop in {f.qualname}")
+                repeated[0] |= in_loop or looped(x)
+            elif isinstance(x, (ast.ListComp, ast.GeneratorExp, ast.SetComp, ast.DictComp)):
+                for g in x.generators:
+                    if denotes(g.iter):
+                        sites.append(f"comprehension in {f.qualname}")
+                        repeated[0] |= in_loop or looped(x) or g is not x.generators[0]
+            elif isinstance(x, ast.Call):
+                hit = [(i, a) for i, a in enumerate(x.args) if denotes(a)] + [(k.arg, k.value) for k in x.keywords if k.arg and denotes(k.value)]
+                if not hit:
+                    if isinstance(x.func, ast.Name) and x.func.id in inner:  # a closure sees the enclosing names
+                        t = inner[x.func.id]
+                        visit(t, set(names) - set(t.param_names()), in_loop or looped(x), depth + 1)
+                    continue
+                fnm = (dotted(x.func) or unparse(x.func)).split(".")[-1]
+                if isinstance(x.func, ast.Name) and x.func.id in ("iter", "enumerate") and len(x.args) == 1:
+                    continue  # still the iterator (judged where it is consumed)
+                tgs = []
+                if isinstance(x.func, ast.Name) and x.func.id in inner:
+                    tgs = [inner[x.func.id]]
+                else:
+                    r = prog.resolve_call(f, x)
+                    tgs = [t for t in r.funcs() if getattr(r, "precise", True) and t.module.name.split(".")[0] == f.module.name.split(".")[0]]
+                if tgs:
+                    for t in tgs:
+                        ps = [a.arg for a in t.node.args.posonlyargs + t.node.args.args]
+                        if ps and ps[0] in ("self", "cls") and isinstance(x.func, ast.Attribute):
+                            ps = ps[1:]
+                        bound = {ps[i] if isinstance(i, int) and i < len(ps) else i for i, _ in hit if not isinstance(i, int) or i < len(ps)}
+                        if t.parent is f:
+                            bound |= set(names) - set(t.param_names())
+                        visit(t, set(bound), in_loop or looped(x), depth + 1)
+                elif fnm in ITER_CONSUMERS:
+                    sites.append(f"{fnm}() in {f.qualname}")
+                    repeated[0] |= in_loop or looped(x)
+                # any other call that receives the reader: the reader's own methods (len, schema) do not iterate it
+        # methods of the reader called on self: followed with self bound
+        if "self" in names:
+            for c in calls_in(f):
+                if isinstance(c.func, ast.Attribute) and isinstance(c.func.value, ast.Name) and c.func.value.id == "self" and c.func.attr.startswith("_") and not c.func.attr.startswith("__"):
+                    r = prog.resolve_call(f, c)
+                    for t in r.funcs():
+                        if t.module is f.module and t is not f:
+                            visit(t, {"self"}, in_loop or looped(c), depth + 1)
+
+    visit(gp, {"self"}, False, 0)
+    return sites, repeated[0]
 
 
 def rule_r4(prog, res) -> None:
